@@ -40,6 +40,9 @@ BASES = [
     "def f(a):\n    if a:\n        return 1\n    for i in a:\n        if i:\n            break\n    else:\n        return 2\n    return 3\n",
     "class K:\n    a = 1\n    def m(self):\n        while self.a:\n            self.a -= 1\n        return self\n    if a:\n        b = 2\n",
     "for i in range(3):\n    def g():\n        return i\n    class L:\n        v = i\n",
+    # a class body nested in a function (a `return` there is outside any function body), with its own control flow
+    "def outer(a):\n    class Inner:\n        b = a\n        if a:\n            c = 1\n        for i in a:\n            d = i\n        class Deeper:\n            e = 2\n    return Inner\n",
+    "class K:\n    def m(self, v):\n        class L:\n            w = v\n            while v:\n                v -= 1\n        return L\n",
     # blocks that can never run (literal tests): conversion still has to look at them - rejection is about the script, not the run
     "if 0:\n    a = 1\nelse:\n    a = 2\nif 1:\n    b = 1\nelif b:\n    b = 2\nelse:\n    b = 3\nwhile 0:\n    c = 1\nelse:\n    c = 2\n",
     "def f(a):\n    if False:\n        a = 1\n    if None:\n        a = 2\n    elif '':\n        a = 3\n    for i in a:\n        if True:\n            a = 4\n        else:\n            a = 5\n    return a\n",
